@@ -245,9 +245,10 @@ type Node struct {
 
 	net *Net
 
-	mu      sync.Mutex
-	applies []Apply
-	events  []RegionEvent
+	mu         sync.Mutex
+	applies    []Apply
+	applyTotal int // applier invocations since the node was created (never reset)
+	events     []RegionEvent
 }
 
 func (n *Node) raftConfig(peerID uint64) myraft.Config {
@@ -385,6 +386,7 @@ func (n *Node) Open() (err error) {
 			rec.Response, rec.Err = resp, err
 			n.mu.Lock()
 			n.applies = append(n.applies, rec)
+			n.applyTotal++
 			n.mu.Unlock()
 			return resp, err
 		},
@@ -495,6 +497,12 @@ func (n *Node) Applies() []Apply {
 	n.mu.Lock()
 	defer n.mu.Unlock()
 	return append([]Apply(nil), n.applies...)
+}
+
+func (n *Node) applyCount() int {
+	n.mu.Lock()
+	defer n.mu.Unlock()
+	return n.applyTotal
 }
 
 // TakeApplies returns and clears the recorded applier invocations.
